@@ -27,7 +27,7 @@ Matches(o, r) ==
        /\ r.post.dot = o.dot                                    \* dot_vectors in the current system
        /\ r.post.mag = o.mag /\ r.post.msq = o.msq              \* vector_magnitude (itself, not only its square)
        /\ r.post.unit = o.unit /\ r.post.proj = o.proj          \* vector_unit, project_vector, projected to Cartesian
-  ELSE /\ r.post.value = RI(o.value)                            \* value of the field at the physical point
+  ELSE /\ r.post.value = o.value                                \* value of the field at the physical point
        /\ {r.post.refused[i] : i \in DOMAIN r.post.refused} = {k \in Reprs : o.apply[k] = "refused"}
 
 TInit == \E i \in DOMAIN Recs :
